@@ -323,7 +323,7 @@ Qed.
 (* the fixed values *)
 Lemma environ_fixed r a e :
   environ r a = EnvOk e ->
-  e_method e = r_method r /\ e_query e = q_query a /\ e_remote e = r_remote_ip r /\
+  e_method e = r_method r /\ e_query e = q_query a /\ e_remote e = q_remote a /\
   e_protocol e = (if r_v11 r then t "HTTP/1.1" else t "HTTP/1.0") /\
   e_scheme e = (if q_https a then t "https" else t "http") /\ e_input e = r_body r /\
   path_info (q_path a) = Some (e_path e) /\
